@@ -875,9 +875,29 @@ def pattern_i8toi32(context, tree, c0):
 @thumb_isa.pattern("reg", "I32TOU8(reg)", size=0)
 @thumb_isa.pattern("reg", "U32TOI8(reg)", size=0)
 @thumb_isa.pattern("reg", "U32TOU8(reg)", size=0)
+@thumb_isa.pattern("reg", "I16TOI8(reg)", size=0)
+@thumb_isa.pattern("reg", "I16TOU8(reg)", size=0)
+@thumb_isa.pattern("reg", "U16TOI8(reg)", size=0)
+@thumb_isa.pattern("reg", "U16TOU8(reg)", size=0)
 def pattern_i32toi8(context, tree, c0):
     # TODO: do something?
     return c0
+
+
+@thumb_isa.pattern("reg", "I8TOI16(reg)", size=2)
+@thumb_isa.pattern("reg", "I8TOU16(reg)", size=2)
+def pattern_i8toi16(context, tree, c0):
+    d = context.new_reg(LowArmRegister)
+    context.emit(Sxtb(d, c0))
+    return d
+
+
+@thumb_isa.pattern("reg", "U8TOI16(reg)", size=2)
+@thumb_isa.pattern("reg", "U8TOU16(reg)", size=2)
+def pattern_u8toi16(context, tree, c0):
+    d = context.new_reg(LowArmRegister)
+    context.emit(Uxtb(d, c0))
+    return d
 
 
 @thumb_isa.pattern("reg", "ADDI32(reg,reg)", size=2)
